@@ -700,6 +700,10 @@ func mergeAndPersistSynonymSection(segments []*SegmentBase, dropsIn []*roaring.B
 
 			prevTerm = prevTerm[:0] // copy to prevTerm in case Next() reuses term mem
 			prevTerm = append(prevTerm, term...)
+			if prevTerm == nil {
+				// the empty term: keep it apart from "no term seen yet"
+				prevTerm = []byte{}
+			}
 			err = enumerator.Next()
 		}
 		if err != vellum.ErrIteratorDone {
